@@ -299,8 +299,8 @@ class C26(core.Check):
                 if pos is not None and 64 < single(pos) <= 2 ** 25:
                     k = 'get'
                     far.add(n)
-                elif pos is not None:
-                    far.discard(n)
+                elif pos is not None and 1 <= single(pos) <= 64:
+                    far.discard(n)      # (a rejected record number leaves the record pointer where it was)
                 elif n in far:
                     k = 'get'
                 ops.append([k, n, pos])
